@@ -109,7 +109,10 @@ Definition index_file (o : oracle) (w : fsw) (id : bytes) (i : N) (user tm name 
   match rs with
   | [] => (mkFsw (fw_fs w) ops3, FErr)
   | _ =>
-      (* Close: a failed Close stores nothing (contract of fs.Writer assumed) *)
+      (* Close fails: the REPAIRED server (hooks/fix_c20_close_error_leaves_file.diff)
+         then calls CloseWithError, which removes the file - as on every other
+         error path. (The server as it is only returns the error; with
+         storage/fs/local the completely written file then stays in the store.) *)
       if o_fs o ops3 then (mkFsw (fw_fs w) (S ops3), FErr)
       else (mkFsw (fw_fs w ++ [(file_path id i, concat hdr ++ body)]) (S ops3), FOk rs)
   end.
